@@ -178,17 +178,30 @@ def selV (r : QD.Sel) : V :=
     | .cand c => if c ≥ freshBase then Option.none else some (Key.cand c, V.num (p.2 : Rat))
     | k => some (keyV k, V.num (p.2 : Rat))))
 
-/-- common argument binding of the two classes: `(votes, n_seats, prev_gains={}, max_seats={})`;
-    `zeroBad` = the quota function divides by the seat count (`Fraction(votes, 0)` raises) -/
-def quotaLeaf (lr : Bool) (cfg : QD.Cfg) (zeroBad : Bool) : Sem := fun a => do
+/-- common argument binding of the two classes: `(votes, n_seats, prev_gains={}, max_seats={})`.
+    `qInt` is the quota function on Python ints (division by zero raises); it decides the outcome for the
+    seat counts the flat model (`Nat` seats) does not cover: a negative seat count left over by an
+    over-awarding earlier stage gives a non-positive quota (VotingSystemError) for the usual quotas, and
+    `hareLike` says that `n_seats=None` is swallowed by `Fraction(votes, None)` -/
+def quotaLeaf (lr : Bool) (cfg : QD.Cfg) (qInt : Rat → Int → Except Err Rat) (hareLike : Bool) : Sem := fun a => do
   let votes ← toVotes a.votes
-  let n ← match a.n with
-    | some v => v.asNat
-    | Option.none => throw eType
   let prev ← toIMap (a.prev.getD (.dict []))
   let caps ← toIMap (a.max.getD (.dict []))
-  if zeroBad && n = 0 then throw eZeroDiv
-  let r ← if lr then QD.largestRemainder cfg votes n prev caps else QD.quotaDistribute cfg votes n prev caps
-  pure (selV r)
+  let total := VL.sumVals votes
+  match a.n with
+  | Option.none => throw eType
+  | some .none =>
+      if hareLike && decide (total ≤ 0) then throw .votingSystemError else throw eType
+  | some (.num r) =>
+      if r.den ≠ 1 then throw eType
+      else do
+        let q ← qInt total r.num
+        if r.num < 0 then
+          (if q ≤ 0 then throw .votingSystemError else throw eUnsupported)
+        else do
+          let n := r.num.toNat
+          let res ← if lr then QD.largestRemainder cfg votes n prev caps else QD.quotaDistribute cfg votes n prev caps
+          pure (selV res)
+  | some _ => throw eType
 
 end VL.C14
